@@ -1135,10 +1135,6 @@ namespace SV.Toc
 
 /-! ## Unique names, list form -/
 
-def ncB (m : MEnt) : Bool := m.e.type ≠ "chunk"
-
-def namesOf (ms : List MEnt) : List Path := (ms.filter ncB).map (·.path)
-
 theorem mem_namesOf {ms : List MEnt} {j : Nat} {p : Path} (h : NonChunkAt ms j p) : p ∈ namesOf ms := by
   obtain ⟨m, hm, hc, hp⟩ := h
   unfold namesOf
@@ -1787,96 +1783,6 @@ end SV.Toc
 namespace SV.Toc
 
 /-! # Part 3: the decidable fragment `SpecConforming` -/
-
-def validTypes : List String := ["dir", "reg", "symlink", "hardlink", "char", "block", "fifo", "chunk"]
-
-/-- a data entry names its chunk by `chunkDigest`, or carries no digest at all (then both stores
-report the empty digest) -/
-def digestOK (e : Entry) : Bool := e.chunkDigest ≠ "" || e.digest = ""
-
-/-- the size a chunk row stands for: `chunkSize`, or "up to the end of the file" when it is 0 -/
-def effSize (size : Int) (c : Entry) : Int := if c.chunkSize = 0 then size - c.chunkOffset else c.chunkSize
-
-/-- the `chunk` entries of a file tile `[start, size)` in order -/
-def contigOK (size : Int) : Int → List Entry → Bool
-  | start, [] => start = size
-  | start, c :: cs =>
-    c.chunkOffset = start && c.size = 0 && digestOK c && effSize size c > 0 &&
-      contigOK size (start + effSize size c) cs
-
-/-- the size the first row (the `reg` entry itself) stands for -/
-def regEff (e : Entry) : Int := if e.chunkSize = 0 then e.size else e.chunkSize
-
-/-- a regular file and the chunk entries filed under its name -/
-def fileOK (e : Entry) (run : List Entry) : Bool :=
-  e.size ≥ 0 && digestOK e &&
-    (if e.size = 0 then run.isEmpty && e.chunkSize = 0 && e.offset = 0
-     else e.chunkOffset = 0 && regEff e > 0 && contigOK e.size (regEff e) run)
-
-/-- the chunk entries filed under the name `p` (pass 1 gives a chunk the name of the entry it
-follows) -/
-def chunksOf (ms : List MEnt) (p : Path) : List Entry :=
-  (ms.filter fun m => m.e.type = "chunk" ∧ m.path = p).map (·.e)
-
-/-- every proper, non-empty prefix of the name `p` of entry `i` is either no entry's name, or the
-name of a directory entry placed before `i` -/
-def ancestorsOK (ms : List MEnt) (i : Nat) (p : Path) : Prop :=
-  ∀ n (_ : n < p.length), 0 < n → ∀ j (hj : j < ms.length), ms[j].e.type ≠ "chunk" →
-    ms[j].path = p.take n → ms[j].e.type = "dir" ∧ j < i
-
-instance (ms : List MEnt) (i : Nat) (p : Path) : Decidable (ancestorsOK ms i p) := by
-  unfold ancestorsOK; infer_instance
-
-/-- The TOCs on which the two stores are proved to agree.  Everything is decidable.
-  * known entry types only;
-  * no entry for the root directory itself, at least one entry;
-  * names (after cleaning: `./`, `../`, `//` spellings are fine) are used once;
-  * a directory entry precedes everything below it, any other ancestor is implicit;
-  * hardlinks point (by any spelling) at an earlier entry that is not a directory — possibly
-    itself a hardlink;
-  * `chunk` entries directly follow their file, and together with the `reg` entry tile the file;
-    per-file digests may be missing; entries without data carry no offset;
-  * xattr keys are unique (any values, also empty ones). -/
-structure SpecConforming (es : List Entry) : Prop where
-  types : ∀ i (h : i < es.length), es[i].type ∈ validTypes
-  nonEmpty : ∃ i, ∃ h : i < es.length, es[i].type ≠ "chunk"
-  noRoot : ∀ i (h : i < (pass1 es).length), (pass1 es)[i].e.type ≠ "chunk" → (pass1 es)[i].path ≠ []
-  names : (namesOf (pass1 es)).Nodup
-  parents : ∀ i (hi : i < (pass1 es).length), (pass1 es)[i].e.type ≠ "chunk" →
-    ancestorsOK (pass1 es) i (pass1 es)[i].path
-  hardlinks : ∀ i (hi : i < (pass1 es).length), (pass1 es)[i].e.type = "hardlink" →
-    ∃ j, ∃ hj : j < (pass1 es).length, j < i ∧ (pass1 es)[j].e.type ≠ "chunk" ∧
-      (pass1 es)[j].path = cleanName (pass1 es)[i].e.linkName ∧ (pass1 es)[j].e.type ≠ "dir"
-  chunkAfterData : ∀ i (h : i < es.length), es[i].type = "chunk" →
-    ∃ h0 : 0 < i, es[i - 1].type = "reg" ∨ es[i - 1].type = "chunk"
-  files : ∀ i (hi : i < (pass1 es).length), (pass1 es)[i].e.type = "reg" →
-    fileOK (pass1 es)[i].e (chunksOf (pass1 es) (pass1 es)[i].path) = true
-  noOffset : ∀ i (h : i < es.length), es[i].type ≠ "reg" → es[i].type ≠ "chunk" → es[i].offset = 0
-  xattrs : ∀ i (h : i < es.length), (es[i].xattrs.map Prod.fst).Nodup
-
-instance (es : List Entry) : Decidable (SpecConforming es) := by
-  exact decidable_of_iff
-    ((∀ i (h : i < es.length), es[i].type ∈ validTypes) ∧
-     (∃ i, ∃ h : i < es.length, es[i].type ≠ "chunk") ∧
-     (∀ i (h : i < (pass1 es).length), (pass1 es)[i].e.type ≠ "chunk" → (pass1 es)[i].path ≠ []) ∧
-     (namesOf (pass1 es)).Nodup ∧
-     (∀ i (hi : i < (pass1 es).length), (pass1 es)[i].e.type ≠ "chunk" →
-        ancestorsOK (pass1 es) i (pass1 es)[i].path) ∧
-     (∀ i (hi : i < (pass1 es).length), (pass1 es)[i].e.type = "hardlink" →
-        ∃ j, ∃ hj : j < (pass1 es).length, j < i ∧ (pass1 es)[j].e.type ≠ "chunk" ∧
-          (pass1 es)[j].path = cleanName (pass1 es)[i].e.linkName ∧ (pass1 es)[j].e.type ≠ "dir") ∧
-     (∀ i (h : i < es.length), es[i].type = "chunk" →
-        ∃ h0 : 0 < i, es[i - 1].type = "reg" ∨ es[i - 1].type = "chunk") ∧
-     (∀ i (hi : i < (pass1 es).length), (pass1 es)[i].e.type = "reg" →
-        fileOK (pass1 es)[i].e (chunksOf (pass1 es) (pass1 es)[i].path) = true) ∧
-     (∀ i (h : i < es.length), es[i].type ≠ "reg" → es[i].type ≠ "chunk" → es[i].offset = 0) ∧
-     (∀ i (h : i < es.length), (es[i].xattrs.map Prod.fst).Nodup))
-    ⟨fun ⟨a, b, c, d, e, f, g, h, i, j⟩ => ⟨a, b, c, d, e, f, g, h, i, j⟩,
-     fun ⟨a, b, c, d, e, f, g, h, i, j⟩ => ⟨a, b, c, d, e, f, g, h, i, j⟩⟩
-
-end SV.Toc
-
-namespace SV.Toc
 
 theorem get_of_getElem? {α : Type} {l : List α} {i : Nat} {a : α} (h : l[i]? = some a) :
     ∃ hi : i < l.length, l[i] = a := by
@@ -2818,7 +2724,7 @@ theorem file_agree {es : List Entry} (sc : SpecConforming es) {r : Nat} {mr : ME
   rw [htake] at hdb
   have hrl : r < es.length := by rw [← pass1_length es]; exact hr
   simp only [fileOK, Bool.and_eq_true, decide_eq_true_eq] at hfile
-  obtain ⟨⟨hsize0, hdg⟩, hrest⟩ := hfile
+  obtain ⟨hsize0, hrest⟩ := hfile
   by_cases hs0 : mr.e.size = 0
   · -- an empty file: no rows on either side
     simp only [hs0, ↓reduceIte, Bool.and_eq_true, List.isEmpty_iff, List.map_eq_nil_iff,
@@ -2849,7 +2755,7 @@ theorem file_agree {es : List Entry} (sc : SpecConforming es) {r : Nat} {mr : ME
     rw [if_pos hx]
   · -- rows tile the file
     simp only [hs0, ↓reduceIte, Bool.and_eq_true, decide_eq_true_eq] at hrest
-    obtain ⟨⟨hco0, hreff⟩, hcontig⟩ := hrest
+    obtain ⟨⟨⟨hdg, hco0⟩, hreff⟩, hcontig⟩ := hrest
     have hspos : mr.e.size > 0 := by omega
     obtain ⟨hct, hall⟩ := contig_of_ok mr.e.size _ (regEff mr.e) hsz hcontig
     have hmcs := pass1_nonchunk_size hmr hnc
